@@ -162,6 +162,33 @@ def pb_program(port, timeout=20.0):
         return {"ok": False, "error": "%s: %s" % (type(e).__name__, e)}
 
 
+def pb_early_send(port_from, target, timeout=40.0):
+    """issued while `target`'s virtual node is NOT up yet: create a qubit at the node behind port_from, flip it, send it to `target`.
+    The request must wait for the connection (get_connection retries) and complete once the peer is there; returns the virtual number
+    the qubit got at the target"""
+    def fn(root):
+        q = yield root.callRemote("new_qubit")
+        yield q.callRemote("apply_X")
+        num = yield root.callRemote("send_qubit", q, target)
+        return int(num)
+    t0 = time.time()
+    try:
+        return {"ok": True, "num": pb_call(port_from, fn, timeout), "took": round(time.time() - t0, 2)}
+    except Exception as e:
+        return {"ok": False, "error": "%s: %s" % (type(e).__name__, e), "took": round(time.time() - t0, 2)}
+
+
+def pb_measure_received(port, num, timeout=10.0):
+    def fn(root):
+        q = yield root.callRemote("get_virtual_ref", num)
+        m = yield q.callRemote("measure", False)
+        return int(m)
+    try:
+        return {"ok": True, "outcome": pb_call(port, fn, timeout)}
+    except Exception as e:
+        return {"ok": False, "error": "%s: %s" % (type(e).__name__, e)}
+
+
 EPR_APP = r"""
 import sys
 from netqasm.sdk import EPRSocket
@@ -362,6 +389,7 @@ def scenario_stagger(spec):
     ev("configured", config=cfg, conn_retry_time=retry, network_config_file=path)
     launched = {}            # (kind, node) -> Popen
     settled_ok = False
+    early = None
 
     def poll_checks(tag):
         for n in nodes:
@@ -389,6 +417,18 @@ def scenario_stagger(spec):
                         ev("listening", kind=kind, node=n)
                     poll_checks("gap")
                     time.sleep(0.25)
+            elif op == "early_send":
+                # a native program that does not wait for readiness: its remote operation needs a peer that is not even launched yet
+                import threading
+                box = {}
+                src, dst = step["from"], step["to"]
+                ev("early_send_issued", src=src, dst=dst, dst_launched=("vnode", dst) in launched)
+
+                def work(box=box, src=src, dst=dst):
+                    box["res"] = pb_early_send(cfg[src]["vnode"], dst, lim.get("early", 40.0))
+                th = threading.Thread(target=work, daemon=True)
+                th.start()
+                early = (th, box, src, dst)
             elif op == "settle":
                 ok_ports = False
                 t_end = time.time() + lim["ready"]
@@ -404,6 +444,13 @@ def scenario_stagger(spec):
                 poll_checks("final")
                 settled_ok = ok_ports and all(e["alive"].values()) and all(
                     x["answer"] for x in EVENTS if x["ev"] == "check" and x["tag"] == "final")
+                if early is not None:
+                    th, box, src, dst = early
+                    th.join(lim.get("early", 40.0) + 5)
+                    res = box.get("res", {"ok": False, "error": "no answer"})
+                    got = pb_measure_received(cfg[dst]["vnode"], res["num"]) if res.get("ok") else None
+                    ev("early_send", src=src, dst=dst, result=res, received=got)
+                    early = None
             elif op in ("program", "epr") and not settled_ok:
                 ev("skipped", op=op, why="the network did not come up")
             elif op == "program":
